@@ -600,8 +600,12 @@ def zygo_scale_rules(run, db, sets):
             nm += 1
     if nm > 1:
         raise AnalysisError('read_zygo_dat: the returned phase is scaled more than once')
-    ok = cnt is not None and mult is not None
-    detail = 'writer counts = %s, reader scale = %s' % (cnt.key() if cnt is not None else 'not found', mult.key() if mult is not None else 'not found')
+    if cnt is None or mult is None:
+        # the conversion lives in a helper / another statement form: nothing to compose, nothing to report
+        raise AnalysisError('zygo scale: the writer\'s nm -> counts conversion (%s) or the reader\'s counts -> nm scale (%s) is not followed'
+                            % ('found' if cnt is not None else 'not found', 'found' if mult is not None else 'not found'))
+    ok = True
+    detail = 'writer counts = %s, reader scale = %s' % (cnt.key(), mult.key())
     if ok:
         # header values the writer stores: W = wavelength/1e6, S = 1, O = 1, phase_res = 1 -> R = factor[1]
         try:
@@ -633,7 +637,9 @@ def zygo_scale_rules(run, db, sets):
                 and isinstance(n.value.args[0], ast.Name) and ast.unparse(n.value.args[2]) == IM:
             sw.append((n, n.value.args[0].id, ast.unparse(n.value.args[1])))
     rw = [n for n in walk_no_nested(fr.node) if isinstance(n, ast.Assign) and isinstance(n.targets[0], ast.Subscript) and ast.unparse(n.value) == 'np.nan']
-    ok = len(sw) == 1 and sw[0][2] == 'ZYGO_INVALID_PHASE' and len(rw) == 1 and 'ZYGO_INVALID_PHASE' in ast.unparse(rw[0].targets[0]) and '>=' in ast.unparse(rw[0].targets[0])
+    if len(sw) != 1 or len(rw) != 1:
+        raise AnalysisError('zygo sentinel: the store of the invalid-phase code in the writer (%d found) or the NaN store in the reader (%d found) is not followed' % (len(sw), len(rw)))
+    ok = sw[0][2] == 'ZYGO_INVALID_PHASE' and 'ZYGO_INVALID_PHASE' in ast.unparse(rw[0].targets[0]) and '>=' in ast.unparse(rw[0].targets[0])
     run.check(ok, 'C14.sentinel', fw.qual, 'zygo sentinel', 'writer stores and reader tests the same invalid-phase constant', 'Zygo invalid-phase sentinel differs between writer and reader', fw.loc())
     MASK = sw[0][1] if len(sw) == 1 else None
     mk = [n for n in walk_no_nested(fw.node) if isinstance(n, ast.Assign) and ast.unparse(n.targets[0]) == MASK]
